@@ -173,7 +173,37 @@ def levelfield(repo, res, rule="LEVEL"):
     envs = A.collect_envs(fn)
     carriers = [v["name"] for v in (repo.enum("Expr") or {}).get("variants", []) if any(str(f.get("name")) == "fallback" for f in v.get("fields", []))]
     res.check(len(carriers) >= 4, rule, f"{rule}:carriers", f"Expr variants with a `fallback` field: {carriers}", "src/parse.rs")
+    pm_ = A.parent_map(fn.body)
+    # an identity return written in front of the match (`if <level of this leaf> == level { return expr_id }`) is the guarded
+    # identity arms written once: it must compare the node's own `fallback` with the level parameter
+    for r in A.walk(fn.body):
+        if r["k"] == "Return" and r.get("expr") is not None:
+            rv = A.resolve(r["expr"], envs.get(id(r["expr"])) or envs.get(id(r)))
+            if not (rv[0] == "param" and rv[1] == 1):
+                continue
+            in_match = any(g[0]["k"] == "Arm" for g in A.guards_of(r, pm_))
+            if in_match:
+                continue
+            okr = False
+            for g, role in A.guards_of(r, pm_):
+                if g["k"] == "If" and role == "then":
+                    for b in A.walk(g["cond"]):
+                        if b["k"] == "Binary" and b["op"] == "==":
+                            l = A.resolve(b["left"], envs.get(id(b["left"])) or envs.get(id(b)))
+                            rr = A.resolve(b["right"], envs.get(id(b["right"])) or envs.get(id(b)))
+                            for x, y in ((l, rr), (rr, l)):
+                                bx = [t for t in A.roots(x) if t[0] == "bind"]
+                                if bx and all(t[2] == "fallback" for t in bx) and any(t[0] == "param" and t[1] == 2 for t in A.roots(y)) and not any(t[0] == "bind" for t in A.roots(y)):
+                                    okr = True
+            res.check(okr, rule, f"{rule}:{fq}:early-identity", "the node is returned unchanged before the match only when its own level equals the branch's level" if okr else "the node is returned unchanged before the match without comparing its `fallback` with the branch's level", f"{fn.file}:{r['l']}")
     for m in T.find_enum_matches(repo, fn, "Expr"):
+        # a match that only reads the node (computes a flag / a field) is not where nodes are rebuilt or handed back
+        def _yields_node(arm):
+            val = A.resolve(arm["body"], envs.get(id(arm["body"])))
+            alts = val[1] if val[0] == "alt" else (val,)
+            return any(a[0] == "param" and a[1] == 1 for a in alts) or any(n["k"] == "Struct" and n["path"].startswith("Expr::") for n in A.walk(arm["body"]))
+        if not any(_yields_node(a) for a in m["arms"]):
+            continue
         for arm in m["arms"]:
             vs = [p.split("::")[-1] for p, _ in A.pat_variants(arm["pat"])]
             for v in vs:
